@@ -774,6 +774,35 @@ def gen_mtl(rng: random.Random, overlap=False, nested=None, bound=2 ** 20, alias
     raise RuntimeError("no mtl program")
 
 
+def gen_mtl_alias_pair(rng: random.Random):
+    """the smallest program in which autograd hands ONE gradient object to a task parameter AND to the
+    feature cotangent: loss_a = ((f + b)^2).sum() (AddBackward forwards its incoming gradient unchanged to
+    both operands), with b also a parameter of another task whose accumulation then works in place on
+    b.grad.  Losses in random order, optional third task, trunk with one or two leaves."""
+    p = Program()
+    n = rng.choice([2, 3])
+    x = p.leaf((n,), _rand_vals(rng, (n,)), True)
+    if rng.random() < 0.5:
+        w0 = p.leaf((n,), _rand_vals(rng, (n,)), True)
+        f = p.op("mul", [x, w0])
+    else:
+        f = p.op("scale", [x], c=rng.choice([2, 3]))
+    b = p.leaf((n,), _rand_vals(rng, (n,)), True)
+    c = p.leaf((n,), _rand_vals(rng, (n,)), True)
+    la = p.op("sum", [p.op("square", [p.op("add", [f, b])])])
+    lb = p.op("sum", [p.op("mul", [p.op("mul", [f, b]), c])])
+    items = [(la, [b]), (lb, [b, c])]
+    if rng.random() < 0.5:
+        d = p.leaf((n,), _rand_vals(rng, (n,)), True)
+        items.append((p.op("sum", [p.op("mul", [f, d])]), [d]))
+    if rng.random() < 0.3:
+        rng.shuffle(items)
+    losses, tasks = [l for l, _ in items], [ps for _, ps in items]
+    shared = [t for t in range(p.n()) if p.is_leaf[t] and p.req[t] and p.reach(f, t)]
+    p.probes = []
+    return p, [f], losses, tasks, shared
+
+
 def exact_vjp(prog, outs, cots, i):
     """sum_o cot_o . D(o,i), exact; cots: list of flat lists"""
     n = numel(prog.shapes[i])
